@@ -130,7 +130,8 @@ def main():
         else:
             res["items"] = [obs(v, t) for _, v in its]
             res["item_keys"] = [enc(k) for k, _ in its]
-        res["values"] = [obs(v, t) for v in t.values()]
+        vals = catching(lambda: list(t.values()))
+        res["values"] = [["err", vals[1]]] if (isinstance(vals, tuple) and vals and vals[0] == "__err__") else [obs(v, t) for v in vals]
         chains = []
         for ch in case["chains"]:
             sels = [dec(s) for s in ch]
